@@ -27,9 +27,10 @@ DRIVERS = ["drv_c24"]
 RULE = ("one case = one generated Modelica model (3-7 equations over + - * / ^, unary sign, der, sin/cos/tan, time, "
         "literals; plain, underscore, builtin-like and dotted names; parameter/constant/input/output/state/plain "
         "variables) pushed through parse, flatten, SymPy generate, compile, stubbed execution and exact evaluation at 3 "
-        "points, plus the model correspondence; streams: main (no known defect class), nested (operands that need "
-        "parentheses), collide (names with equal mangling), value (expression-valued parameters), reserved (Python "
-        "keywords / template names), other-prefix (discrete); grammar cases = random Python expression texts compared "
+        "points, plus the model correspondence; streams: main (arbitrary nesting unless the unparenthesised printer is "
+        "detected), nested (operands that need parentheses), collide (names with equal mangling: open finding C24-F2), "
+        "value (expression-valued parameters), reserved (Python keywords / template names), other-prefix (discrete) "
+        "— the last four are regression streams of the fixed findings C24-F1/F3/F4/F5; grammar cases = random Python expression texts compared "
         "between CPython and the model parser. non-trivial = at least one equation of depth >= 2 was evaluated at a "
         "point where the reference is defined (grammar case: at least two operators); distinct = distinct case")
 TRUSTED = ["CPython's tokenizer and parser (the Lean grammar instance is compared with them on every generated equation "
@@ -97,7 +98,7 @@ class G:
             rt = self.expo(depth, self.nested) if op == "^" else self.nested(depth - 1)
             return ["b", op, l, rt]
         if r < 0.86:
-            return ["u", "-" if self.rng.random() < 0.85 else "+", self.nested(depth - 1)]
+            return ["u", "-" if self.rng.random() < 0.7 else "+", self.nested(depth - 1)]
         return ["c", self.rng.choice(L.FUNCS), self.nested(depth - 1)]
 
     # trees in natural precedence form: printing them without any parentheses is right
@@ -119,7 +120,8 @@ class G:
         # a sign in front of a power is -(a^b) in Python and in the tree; as a non-leading operand of
         # + - * / a signed factor prints as `x * - y`, which Python accepts with the same tree
         if self.rng.random() < (0.22 if signed_ok else 0.08):
-            return ["u", "-", self.p_factor(depth, False) if self.rng.random() < 0.2 else self.p_power(depth)]
+            return ["u", "-" if self.rng.random() < 0.75 else "+",
+                    self.p_factor(depth, False) if self.rng.random() < 0.2 else self.p_power(depth)]
         return self.p_power(depth)
 
     def p_power(self, depth):
@@ -129,7 +131,7 @@ class G:
             if r < 0.6:
                 ex = ["n", self.rng.choice(["2", "3", "4"])]
             elif r < 0.8:
-                ex = ["u", "-", self.p_atom(depth - 1)]
+                ex = ["u", "-" if self.rng.random() < 0.8 else "+", self.p_atom(depth - 1)]
             elif r < 0.9:
                 ex = self.p_power(depth - 1)       # right-associative chain
             else:
@@ -645,6 +647,10 @@ def model_tie(ctx, case, drv, printer, real, obj, np_flags):
         r_assign = [{"ids": a["ids"], "names": a["names"]} for a in assigns]
         if m_assign != r_assign:
             ctx.disagreement("lists", dict(kcase, focus=dict(kcase["focus"], what="lists")), m_assign, r_assign)
+        r_mat = dict(L.init_assignments.matrices)
+        m_mat = {k: ans["lists"][k] for k in ("x", "v", "c", "p", "u", "y")}
+        if r_mat != m_mat:
+            ctx.disagreement("matrices", dict(kcase, focus=dict(kcase["focus"], what="matrices")), m_mat, r_mat)
     lines = L.eq_lines(src)
     if lines != ans["eq_src"]:
         bad = [i for i in range(max(len(lines), len(ans["eq_src"])))
@@ -827,20 +833,36 @@ def run(ctx):
     n_models = 170 if quick else 5000
     n_gram = 220 if quick else 6000
     streams = ["main"] * 11 + ["nested"] * 4 + ["collide"] * 2 + ["value", "reserved", "other-prefix"]
-    budget = ctx.budget_s
-    for i in range(n_gram):
-        if ctx.time_left() < budget * 0.75:
-            ctx.notes.append("grammar cases stopped by time budget after %d" % i)
-            break
-        t = gen_pytree(ctx.rng, ctx.rng.choice([1, 2, 3, 3, 4, 5]))
-        dispatch(ctx, {"kind": "grammar", "tree": t, "extra": ctx.rng.randrange(1 << 30)}, drv, printer)
+    # two sub-streams seeded from the run's PRNG, so that cutting one short (time budget on a loaded
+    # machine) does not change the cases of the other
+    rng_m = random.Random(ctx.rng.getrandbits(64))
+    rng_g = random.Random(ctx.rng.getrandbits(64))
+    done_g = 0
     for i in range(n_models):
         if ctx.time_left() < 0:
-            ctx.notes.append("models stopped by time budget after %d" % i)
+            ctx.notes.append("stopped by time budget after %d models and %d grammar cases" % (i, done_g))
             break
-        stream = ctx.rng.choice(streams)
-        case = gen_case(ctx.rng, stream, printer)
+        stream = rng_m.choice(streams)
+        case = gen_case(rng_m, stream, printer)
         dispatch(ctx, case, drv, printer)
+        while done_g * n_models < (i + 1) * n_gram:
+            t = gen_pytree(rng_g, rng_g.choice([1, 2, 3, 3, 4, 5]))
+            dispatch(ctx, {"kind": "grammar", "tree": t, "extra": rng_g.randrange(1 << 30)}, drv, printer)
+            done_g += 1
+
+
+def search(ctx):
+    """A tie is broken but no input violating the property was found in the run: spend the extra
+    time on the direct oracle alone (no model), over deeper trees in every stream."""
+    printer = detect_printer(ctx)
+    n = 0
+    while ctx.time_left() > 0 and not ctx.violations:
+        stream = ctx.rng.choice(["main", "main", "nested", "nested", "collide", "value", "reserved", "other-prefix"])
+        case = gen_case(ctx.rng, stream, "fix" if stream in ("main", "nested") else printer)
+        ctx.count("search-case")
+        check_case(ctx, case, None, printer)
+        n += 1
+    ctx.notes.append("failing-input search: %d further models" % n)
 
 
 def replay(ctx, payload):
@@ -852,12 +874,13 @@ def replay(ctx, payload):
 
 MANIFEST = dict(
     level_text="Lean 4 theorems about an executable model of the SymPy source printer (expression printing, name mangling, "
-               "classification) and a table-driven Python expression grammar: the printed equation parses back to the flat "
-               "expression and evaluates like it under every interpretation (for the parenthesising printer; for the "
-               "unparenthesised printer on the expressions in natural precedence form, with a proved counterexample "
-               "otherwise), mangling is injective under a stated side condition (with proved colliding pairs), and the lists "
-               "are the prefix classes. Tied to the real generator on every run by text-exact correspondence and to CPython's "
-               "parser by differential parsing; direct oracle = compile + stubbed execution + exact evaluation.",
+               "classification) and a table-driven Python expression grammar: the text of every equation parses back to lhs - rhs "
+               "of the flat equation and evaluates like it under every interpretation (parenthesising printer of the current tree; "
+               "for the printer before fix C24-1 only on expressions in natural precedence form, with a proved counterexample "
+               "otherwise), mangling is injective under a stated side condition (with proved colliding pairs, open finding "
+               "C24-F2), and the lists are the prefix classes. Tied to the real generator on every run by text-exact "
+               "correspondence and to CPython's parser by differential parsing; direct oracle = compile + stubbed execution + "
+               "exact evaluation of every equation at three points.",
     level_note="Trusted: Lean kernel + standard axioms; the harness; CPython's tokenizer/parser as the meaning of the printed "
                "text (exercised, not proved); the model, not the Python, is what the theorems are about.",
     technique="Lean 4 proof (structural induction, parse-print round trip by a follow-set invariant) + model/implementation correspondence",
